@@ -50,13 +50,14 @@ L_ATOM   == 19
 
 TopKinds   == {"NamedExpr", "Tuple", "Yield", "Yield0", "YieldFrom", "Starred", "StarredOr", "Slice"}
 TestKinds  == {"IfExp", "Lambda", "LambdaArgs"}
-CmpKinds   == {"Compare", "CompareIn", "CompareIsNot", "CompareChain"}
+CmpKinds   == {"Compare", "CompareIn", "CompareIsNot", "CompareChain", "CompareNotEq"}
 ShiftKinds == {"LShift", "RShift"}
-ArithKinds == {"Add", "Sub"}
+ArithKinds == {"Add", "Sub", "ComplexLit", "ComplexNeg",      \* `1 + 2j`, `-1 - 2j`: the complex literals of patterns
+               "IntSum", "ImagFirst"}                        \* `1 + 2`, `2j + 1`: look-alikes that are not
 TermKinds  == {"Mult", "Div", "FloorDiv", "Mod", "MatMult"}
-FactKinds  == {"USub", "UAdd", "Invert"}
+FactKinds  == {"USub", "UAdd", "Invert", "NegNum", "PosNum"}  \* `-7`: signed number; `+7` is not one
 PrimKinds  == {"Call", "Attribute", "Subscript"}
-AtomKinds  == {"Name", "Int", "Float", "Imag", "Str", "StrConcat", "Bytes", "JoinedStr", "NameConst", "Ellipsis",
+AtomKinds  == {"Name", "Int", "Float", "Imag", "Str", "StrDq", "StrConcat", "Bytes", "JoinedStr", "NameConst", "Ellipsis",
                "List", "Dict", "Set", "ListComp", "SetComp", "DictComp", "GeneratorExp", "Tuple0"}
 ExprKinds  == TopKinds \cup TestKinds \cup {"Or", "And", "Not"} \cup CmpKinds \cup {"BitOr", "BitXor", "BitAnd"}
               \cup ShiftKinds \cup ArithKinds \cup TermKinds \cup FactKinds \cup {"Pow", "Await"} \cup PrimKinds
@@ -105,6 +106,9 @@ ExprNT ==
     (* star_expressions: star_expression (',' star_expression)+ [','] | star_expression ',' | star_expression  *)
     (* -- a lone `*a` is grammatical here (`x = *a` is refused by the compiler, not by the parser)             *)
     star_expressions      |-> [min |-> L_TEST, tops |-> {"Tuple", "Starred"}],
+    (* fstring_replacement_field: '{' annotated_rhs '='? [fstring_conversion] [fstring_full_format_spec] '}'    *)
+    (* annotated_rhs: yield_expr | star_expressions  (also the nested fields of a format spec)                  *)
+    fstring_field         |-> [min |-> L_TEST, tops |-> {"Tuple", "Starred", "Yield", "Yield0", "YieldFrom"}],
     star_expression       |-> [min |-> L_TEST, tops |-> {"Starred"}],               \* element of a bare tuple
     star_named_expression |-> [min |-> L_TEST, tops |-> {"NamedExpr", "Starred"}],  \* element of [..], {..}, (..,)
     named_expression      |-> [min |-> L_TEST, tops |-> {"NamedExpr"}],
@@ -139,6 +143,16 @@ TargetNT ==
     star_target_elt |-> [kinds |-> {"Name", "Attribute", "Subscript", "List", "Tuple", "Tuple0", "Starred"}, bareTuple |-> FALSE],
     del_target      |-> [kinds |-> {"Name", "Attribute", "Subscript", "List", "Tuple", "Tuple0"}, bareTuple |-> FALSE],
     target_with_star_atom |-> [kinds |-> {"Name", "Attribute", "Subscript", "List", "Tuple", "Tuple0"}, bareTuple |-> FALSE],
+    (* assignment: NAME ':' expression ... | ('(' single_target ')' | single_subscript_attribute_target) ':' ...  *)
+    ann_target      |-> [kinds |-> {"Name", "Attribute", "Subscript"}, bareTuple |-> FALSE],
+    (* literal_pattern: signed_number | complex_number | strings;  value_pattern: attr (dotted name);           *)
+    (* `None`/`True`/`False` are a MatchSingleton, not a MatchValue; literal_expr (mapping keys) admits them too.  *)
+    (* f-strings are `strings` for the parser (the compiler refuses them, see CompilerRefusesN)                  *)
+    literal_value   |-> [kinds |-> {"Int", "Float", "Imag", "Str", "StrDq", "StrConcat", "Bytes", "JoinedStr",
+                                    "NegNum", "ComplexLit", "ComplexNeg", "Attribute"}, bareTuple |-> FALSE],
+    literal_key     |-> [kinds |-> {"Int", "Float", "Imag", "Str", "StrDq", "StrConcat", "Bytes", "JoinedStr",
+                                    "NegNum", "ComplexLit", "ComplexNeg", "Attribute", "NameConst"},
+                         bareTuple |-> FALSE],
     single_target   |-> [kinds |-> {"Name", "Attribute", "Subscript"}, bareTuple |-> FALSE],
     name_only       |-> [kinds |-> {"Name"}, bareTuple |-> FALSE],
     name_or_attr    |-> [kinds |-> {"Name", "Attribute"}, bareTuple |-> FALSE] ]
@@ -194,6 +208,18 @@ ExprSlots == BinSlots \cup {
   <<"Starred.value.call", "expression">>,                                               \* '*' expression
   <<"Starred.value.list", "bitwise_or">>, <<"Starred.value.tuple", "bitwise_or">>,      \* '*' bitwise_or
   <<"Attribute.value", "primary">>, <<"Subscript.value", "primary">>,
+  <<"Attribute.value.ann", "primary">>, <<"Subscript.value.ann", "primary">>,           \* t_primary of an annotated target
+  (* f-strings (PEP 701 grammar of 3.12) *)
+  <<"FormattedValue.value", "fstring_field">>, <<"FormattedValue.value.squote", "fstring_field">>,
+  <<"FormattedValue.value.triple", "fstring_field">>, <<"FormattedValue.value.mid", "fstring_field">>,
+  <<"FormattedValue.value.second", "fstring_field">>, <<"FormattedValue.value.conv", "fstring_field">>,
+  <<"FormattedValue.value.spec", "fstring_field">>, <<"FormattedValue.value.convspec", "fstring_field">>,
+  <<"FormattedValue.value.debug", "fstring_field">>, <<"FormattedValue.value.debug.conv", "fstring_field">>,
+  <<"FormattedValue.value.debug.mid", "fstring_field">>,
+  <<"format_spec.field", "fstring_field">>, <<"format_spec.field.mid", "fstring_field">>,
+  (* operands that end at bracket depth 0 of a replacement field *)
+  <<"IfExp.orelse.infstring", "expression">>, <<"Tuple.elts.infstring", "star_expression">>,
+  (* a debug field nested in a format spec (`f"{x:{y=}}"`) makes CPython 3.12.1 itself fail (ValueError) *)
   <<"Subscript.slice", "slices">>, <<"Subscript.slice.elt", "slice_item">>,
   <<"Slice.lower", "expression">>, <<"Slice.upper", "expression">>, <<"Slice.step", "expression">>,
   (* statement level *)
@@ -216,7 +242,11 @@ TargetSlots == {
   <<"withitem.optional_vars", "star_target">>, <<"Delete.targets", "del_target">>,
   <<"AugAssign.target", "single_target">>, <<"NamedExpr.target", "name_only">>,
   <<"Tuple.elts.store", "star_target_elt">>, <<"List.elts.store", "star_target_elt">>,
-  <<"Starred.value.store", "target_with_star_atom">>, <<"MatchClass.cls", "name_or_attr">> }
+  <<"Starred.value.store", "target_with_star_atom">>, <<"MatchClass.cls", "name_or_attr">>,
+  <<"AnnAssign.target", "ann_target">>, <<"AnnAssign.target.noval", "ann_target">>,
+  <<"MatchValue.value", "literal_value">>, <<"MatchValue.value.inor", "literal_value">>,
+  <<"MatchValue.value.inseq", "literal_value">>,
+  <<"MatchMapping.keys", "literal_key">>, <<"MatchMapping.keys.second", "literal_key">> }
 
 PatSlots == {
   <<"match_case.pattern", "patterns">>, <<"MatchAs.pattern", "or_pattern">>,
@@ -254,20 +284,53 @@ IsFill(id) == FillOuterNT(id) # "none"
 (* nonterminal as an argument (nt = NT(id)); the plain ones look it up.     *)
 
 (* `1.real` is tokenised as the float `1.` followed by a name: a decimal integer literal before `.` needs   *)
-(* parentheses (or a space) for lexical reasons although it is an atom                                       *)
-Lexical(id, c) == c = "Int" /\ id = "Attribute.value"
+(* parentheses (or a space) for lexical reasons although it is an atom.  In a replacement field of an       *)
+(* f-string a `:` at bracket depth 0 starts the format spec: a lambda needs parentheses there although       *)
+(* annotated_rhs derives it ("f-string: lambda expressions are not allowed without parentheses").            *)
+Lexical(id, nt, c) == \/ c = "Int" /\ id \in {"Attribute.value", "Attribute.value.ann"}
+                      \/ c \in {"Lambda", "LambdaArgs"}
+                         /\ (nt = "fstring_field" \/ id \in {"IfExp.orelse.infstring", "Tuple.elts.infstring"})
 
-(* NAME ':=' and name_or_attr '(' take a bare name (dotted name): no parenthesised form exists             *)
-ParAllowedN(nt) == nt \notin {"name_only", "name_or_attr"}
+(* `{{` in an f-string is an escaped brace: an operand that starts with `{` needs a blank (or parentheses)  *)
+(* after the opening brace of the field                                                                     *)
+(* (tokenizer of 3.12.1: inside a format spec, after literal spec text, `{{` opens a nested field instead -   *)
+(* bound to CPython by Gram.bare on the rows of slot format_spec.field.mid)                                  *)
+NeedsBlankN(id, nt, c) == /\ nt = "fstring_field" /\ c \in {"Dict", "Set", "SetComp", "DictComp"}
+                          /\ id # "format_spec.field.mid"
+
+(* named deviation PegCommitsToParenthesisedTarget: in `('(' single_target ')' | single_subscript_           *)
+(* attribute_target) ':'` CPython's PEG parser commits to the first alternative, so `(t)[i]: int` and        *)
+(* `(t.a).b: int` are rejected ("illegal target for annotation") although t_primary: atom admits the group;  *)
+(* `(a + b)[i]: int` is accepted.  Binding to CPython: Gram.childpar on these rows.                          *)
+AnnPrimarySlots == {"Attribute.value.ann", "Subscript.value.ann"}
+PegCommitsToParenthesisedTarget(id, c) == id \in AnnPrimarySlots /\ c \in {"Name", "Attribute", "Subscript"}
+
+(* NAME ':=', name_or_attr '(' and literal_expr ':' take the bare form only: no parenthesised form exists   *)
+(* (for a MatchValue the parentheses of `case (7):` are a group_pattern around it: they exist)               *)
+ParAllowedN(id, nt, c) == /\ nt \notin {"name_only", "name_or_attr", "literal_key"}
+                          /\ ~PegCommitsToParenthesisedTarget(id, c)
 
 (* `with (a, b): pass` is the parenthesised form of *two* with-items: a tuple as the only context          *)
 (* expression without `as` needs two pairs of parentheses                                                   *)
 NeedsDoublePars(id, c) == id = "withitem.context_expr" /\ c = "Tuple"
 
-(* grammatical, but refused by CPython's *compiler* ("can't use starred expression here"): a lone `*a` as  *)
-(* star_expressions / star_target.  Such requests are outside the property (pfst refuses them too).         *)
-CompilerRefusesN(nt, c) == c \in {"Starred", "StarredOr"}
-                           /\ nt \in {"assign_rhs", "star_expressions", "star_targets", "star_target"}
+(* grammatical, but refused by CPython's *compiler*: a lone `*a` as star_expressions / star_target ("can't  *)
+(* use starred expression here"), an f-string as a literal pattern ("patterns may only match literals and   *)
+(* attribute lookups").  Such requests are outside the property (pfst refuses them too).                    *)
+CompilerRefusesN(nt, c) ==
+  \/ c \in {"Starred", "StarredOr"}
+     /\ nt \in {"assign_rhs", "star_expressions", "fstring_field", "star_targets", "star_target"}
+  \/ c = "JoinedStr" /\ nt \in {"literal_value", "literal_key"}
+
+(* slots whose grammar is a closed list of literal forms: every other kind must be *refused* (RefusedCleanly) *)
+StrictN(nt) == nt \in {"literal_value", "literal_key", "ann_target"}
+
+(* fields of the parent that are functions of the operand's source and therefore change with it:            *)
+(* the text Constant in front of a debug field `{x = }`; AnnAssign.simple (1 iff the target is a bare name)  *)
+Dependent(id) ==
+  CASE id \in {"FormattedValue.value.debug", "FormattedValue.value.debug.conv", "FormattedValue.value.debug.mid"}                      -> "debugtext"
+    [] id \in {"AnnAssign.target", "AnnAssign.target.noval"}  -> "simple"
+    [] OTHER -> "none"
 
 ValidN(nt, c) ==
   CASE ClsOfNT(nt) = "load" ->
@@ -280,7 +343,7 @@ ValidN(nt, c) ==
 
 BareN(id, nt, c) ==
   /\ ValidN(nt, c)
-  /\ ~Lexical(id, c)
+  /\ ~Lexical(id, nt, c) /\ ~NeedsBlankN(id, nt, c)
   /\ CASE ClsOfNT(nt) = "load" ->
             IF c \in TopKinds THEN c \in ExprNT[nt].tops ELSE Level(c) >= ExprNT[nt].min
        [] ClsOfNT(nt) = "store" -> (c = "Tuple" => TargetNT[nt].bareTuple)
@@ -288,13 +351,14 @@ BareN(id, nt, c) ==
 
 (* `*a or b` is an argument but not a list element: there the *operand* of the star needs the parentheses *)
 NeedsInnerN(nt, c) == c = "StarredOr" /\ ValidN(nt, c) /\ "StarredOr" \notin ExprNT[nt].tops
-NeedsParsN(id, nt, c) == ValidN(nt, c) /\ ~BareN(id, nt, c) /\ ~NeedsInnerN(nt, c)
+NeedsParsN(id, nt, c) == ValidN(nt, c) /\ ~BareN(id, nt, c) /\ ~NeedsInnerN(nt, c) /\ ~NeedsBlankN(id, nt, c)
 
 Valid(id, c)      == ValidN(NT(id), c)
 Bare(id, c)       == BareN(id, NT(id), c)
 NeedsInner(id, c) == NeedsInnerN(NT(id), c)
 NeedsPars(id, c)  == NeedsParsN(id, NT(id), c)
-ParAllowed(id)    == ParAllowedN(NT(id))
+ParAllowed(id, c) == ParAllowedN(id, NT(id), c)
+NeedsBlank(id, c) == NeedsBlankN(id, NT(id), c)
 
 (* after the fill the parent is an as_pattern                                                              *)
 NeedsParentPars(id) == IsFill(id) /\ P_AS < PatNT[FillOuterNT(id)].min
@@ -306,7 +370,8 @@ NeedsParsML(depth, ml, selfEnc) == ml /\ ~selfEnc /\ depth = 0
 (* everything the specification says about one (slot, kind)                                                *)
 Judge(id, c) == LET nt == NT(id) IN
   [slot |-> id, child |-> c, cls |-> ClsOfNT(nt), nt |-> nt, valid |-> ValidN(nt, c),
-   parok |-> ParAllowedN(nt), dbl |-> NeedsDoublePars(id, c), comp |-> ~CompilerRefusesN(nt, c),
+   parok |-> ParAllowedN(id, nt, c), blank |-> NeedsBlankN(id, nt, c), strict |-> StrictN(nt), dep |-> Dependent(id),
+   dbl |-> NeedsDoublePars(id, c), comp |-> ~CompilerRefusesN(nt, c),
    needs |-> NeedsParsN(id, nt, c), inner |-> NeedsInnerN(nt, c), parent |-> NeedsParentPars(id)]
 Row(id, c) == Judge(id, c)
 Cases == {<<id, c>> : id \in SlotIds, c \in ExprKinds \cup PatKinds}
